@@ -4,7 +4,9 @@
 Message-level model of the HTTP client's redirect handling.  A complete response
 (status, Location header, declared/received body length) is one input; the outputs
 are the *effects* the client produces: closing / opening connections and sending
-requests (method, request target, Host header, body).
+requests (method, request target, Host header, body).  The connector's transmit queue is kept as well
+(`Patron.unsent`): a request the socket took only partly stays there, and a redirect that replaces the
+connection starts with an empty queue, so the new host receives the reissued request first.
 
 Transcribed (as repaired by `fixes/D34a..D34d`): `Patron.serviceResponse` (redirect
 bookkeeping), `Patron.redirect`, `Patron.transmit`, `Patron.serviceRequests`,
@@ -341,6 +343,9 @@ structure Request where
   path : Str
   qargs : List (Str × Str)
   body : List Nat
+  /-- did the socket take the whole request in the service round that transmitted it?  `false`: only part of it
+  went out, the remainder stays in `connector.txes` (a large upload, a slow peer) -/
+  flush : Bool := true
   deriving DecidableEq
 
 inductive Effect
@@ -360,6 +365,9 @@ structure Patron where
   waited : Bool
   redirectable : Bool
   queue : List Request
+  /-- `connector.txes`: the requests (or unsent remainders of requests) still queued in the connector, each with the
+  connection it was built for.  `Client.serviceTxes` sends them in this order to wherever the connector points. -/
+  unsent : List (Conn × Sent) := []
   deriving DecidableEq
 
 /-- a complete response message as the server wrote it -/
@@ -390,7 +398,7 @@ def transmitRedirect (S : Std) (p : Patron) (path : Str) (qargs : List (Str × S
   let r := { p.req with path := path, qargs := qargs, fragment := fragment, body := [] }
   match build S r with
   | .error e => ⟨p, [], some e⟩
-  | .ok (r', s) => ⟨{ p with req := r', waited := true }, [Effect.send p.conn s], none⟩
+  | .ok (r', s) => ⟨{ p with req := r', waited := true, unsent := p.unsent ++ [(p.conn, s)] }, [Effect.send p.conn s], none⟩
 
 /-- `Patron.transmit(**request)` as called by `serviceRequests` -/
 def transmitRequest (S : Std) (p : Patron) (q : Request) : Out :=
@@ -398,7 +406,9 @@ def transmitRequest (S : Std) (p : Patron) (q : Request) : Out :=
   let r := { p.req with method := m, path := q.path, qargs := q.qargs, body := q.body }
   match build S r with
   | .error e => ⟨p, [], some e⟩
-  | .ok (r', s) => ⟨{ p with req := r', waited := true, respMethod := r'.method }, [Effect.send p.conn s], none⟩
+  | .ok (r', s) =>
+    ⟨{ p with req := r', waited := true, respMethod := r'.method, unsent := p.unsent ++ [(p.conn, s)] },
+     [Effect.send p.conn s], none⟩
 
 /-- `Patron.serviceRequests` -/
 def serviceRequests (S : Std) (p : Patron) : Out :=
@@ -473,7 +483,8 @@ def follow (S : Std) (p : Patron) (t : Target) (ip : Str) : Out :=
     else
       let c : Conn := { ip := ip, port := t.port, tls := t.secured }
       let r := { p.req with hostname := t.hostname, port := t.port, scheme := t.scheme, body := [] }
-      let o := transmitRedirect S { p with conn := c, req := r } t.path qargs t.fragment
+      -- a NEW `Client` / `ClientTls` object: its `.txes` is empty, what the old connector had not sent yet is dropped
+      let o := transmitRedirect S { p with conn := c, req := r, unsent := [] } t.path qargs t.fragment
       ⟨o.p, [Effect.close, Effect.open c] ++ o.es, o.err⟩
   else transmitRedirect S p t.path qargs t.fragment
 
@@ -526,16 +537,22 @@ inductive Op
   | response (r : Resp)       -- a complete response arrives, followed by a service round
   deriving DecidableEq
 
-/-- one service round -/
+/-- the socket takes everything that is queued (`Client.serviceTxes` with a peer that reads) -/
+def drain (o : Out) : Out := ⟨{ o.p with unsent := [] }, o.es, o.err⟩
+
+/-- one service round (for a response: the rounds until it has been dealt with; by their end the wire has taken
+whatever was queued) -/
 def step (S : Std) (p : Patron) : Op → Out
-  | .request q => serviceRequests S { p with queue := p.queue ++ [q] }
+  | .request q =>
+    let a := serviceRequests S { p with queue := p.queue ++ [q] }
+    if q.flush then drain a else a
   | .response r =>
     let a := serviceResponse S p r
     match a.err with
     | some _ => a
     | none =>
       let b := serviceRequests S a.p
-      ⟨b.p, a.es ++ b.es, b.err⟩
+      drain ⟨b.p, a.es ++ b.es, b.err⟩
 
 /-- a whole history; the first exception ends it (it leaves `serviceAll`) -/
 def run (S : Std) : Patron → List Op → Out
